@@ -187,6 +187,7 @@ def qpoints_unit(u, res):
     return res
 
 
+@symnp.outside_session
 def replay_qpoints(with_e, with_d, omp, sub):
     """numeric replay on the real build (OpenMP or serial) against the option-free reference"""
     import subprocess, sys, os
@@ -353,6 +354,7 @@ def gv_history_unit(u, res):
     return res
 
 
+@symnp.outside_session
 def replay_gv(pre, fin):
     """numeric replay: same history on the real build with a symmetric spring model"""
     worst = 0.0
